@@ -1,7 +1,7 @@
 /-
 C07 — one pair of a general comparison (no compatibility mode): the code's isinstance dispatch +
 Python operator against XPath 3.1 §3.7.2 (untypedAtomic conversion) + §3.7.1, pair by pair.
-The 17 x 17 case analysis is split by the type of the left operand over CompareGeneral{GN,GU,G1,G2,G3,G4}.lean.
+The 17 x 17 case analysis is split by the type of the left operand over CompareGeneral{GN,GU,G1,...,G6}.lean.
 -/
 import EPV.Lemmas.CompareGeneralGN
 import EPV.Lemmas.CompareGeneralGU
@@ -9,6 +9,8 @@ import EPV.Lemmas.CompareGeneralG1
 import EPV.Lemmas.CompareGeneralG2
 import EPV.Lemmas.CompareGeneralG3
 import EPV.Lemmas.CompareGeneralG4
+import EPV.Lemmas.CompareGeneralG5
+import EPV.Lemmas.CompareGeneralG6
 set_option linter.unusedSimpArgs false
 namespace EPV.Cmp
 open EPV.CmpSpec EPV.CmpFind
@@ -32,8 +34,8 @@ theorem pairGeneral_conforms (m : Mode) (op : Op) (a b : Atom)
     case dtm => exact pairGeneral_conforms_G2 m op _ b rfl h1 h2 h4 h5 h6 h8 h9
     case time => exact pairGeneral_conforms_G2 m op _ b rfl h1 h2 h4 h5 h6 h8 h9
     case dur => exact pairGeneral_conforms_G3 m op _ b rfl h1 h2 h4 h5 h6 h8 h9
-    case ymd => exact pairGeneral_conforms_G3 m op _ b rfl h1 h2 h4 h5 h6 h8 h9
-    case dtd => exact pairGeneral_conforms_G3 m op _ b rfl h1 h2 h4 h5 h6 h8 h9
+    case ymd => exact pairGeneral_conforms_G5 m op _ b rfl h1 h2 h4 h5 h6 h8 h9
+    case dtd => exact pairGeneral_conforms_G6 m op _ b rfl h1 h2 h4 h5 h6 h8 h9
     case hex => exact pairGeneral_conforms_G4 m op _ b rfl h1 h2 h4 h5 h6 h8 h9
     case b64 => exact pairGeneral_conforms_G4 m op _ b rfl h1 h2 h4 h5 h6 h8 h9
 
